@@ -59,6 +59,8 @@ type Datagram struct {
 	At    time.Duration
 	Data  []byte
 	Fate  string // delivered | drop | dup | delay | flip | trunc | injected
+	From  string // sender / receiver address (several client endpoints: Setup.ExtraClientEndpoints)
+	To    string
 }
 
 // Net is the scripted network.
@@ -73,6 +75,18 @@ type Net struct {
 	DropAll [2]bool
 	// Tap, if non-nil, sees every datagram before faults are applied and may return false to drop it.
 	Tap func(d Dir, idx int, b []byte) bool
+	// dropTo: destination addresses whose datagrams are silently dropped (a dead return path); see SetDropTo
+	dropTo map[string]bool
+}
+
+// SetDropTo switches dropping of every datagram addressed to addr on or off.
+func (n *Net) SetDropTo(addr net.Addr, on bool) {
+	n.mu.Lock()
+	defer n.mu.Unlock()
+	if n.dropTo == nil {
+		n.dropTo = map[string]bool{}
+	}
+	n.dropTo[addr.String()] = on
 }
 
 func (n *Net) dirOf(p simnet.Packet) Dir {
@@ -89,8 +103,9 @@ func (n *Net) SendPacket(p simnet.Packet) error {
 	idx := n.count[d]
 	n.count[d]++
 	f, hasFault := n.faults[[2]int{int(d), idx}]
-	rec := Datagram{Dir: d, Index: idx, At: time.Since(n.start), Data: append([]byte(nil), p.Data...), Fate: "delivered"}
-	dropAll := n.DropAll[d]
+	rec := Datagram{Dir: d, Index: idx, At: time.Since(n.start), Data: append([]byte(nil), p.Data...), Fate: "delivered",
+		From: p.From.String(), To: p.To.String()}
+	dropAll := n.DropAll[d] || n.dropTo[p.To.String()]
 	tap := n.Tap
 	if hasFault {
 		rec.Fate = f.Kind
@@ -184,6 +199,13 @@ func (r *Recorder) RecordEvent(ev qlogwriter.Event) {
 }
 func (r *Recorder) Close() error { return nil }
 
+// Snapshot returns a copy of the events recorded so far (safe while the connection is running).
+func (r *Recorder) Snapshot() []qlogwriter.Event {
+	r.mu.Lock()
+	defer r.mu.Unlock()
+	return append([]qlogwriter.Event(nil), r.Events...)
+}
+
 type trace struct{ r *Recorder }
 
 func (t trace) AddProducer() qlogwriter.Recorder             { return t.r }
@@ -203,6 +225,14 @@ type Setup struct {
 	// optional: adjust the transports before Listen / Dial (e.g. VerifySourceAddress, ConnectionIDLength)
 	ServerTransport func(*quic.Transport)
 	ClientTransport func(*quic.Transport)
+	// ExtraClientEndpoints: further network endpoints of the client host (addresses ExtraClientAddr(0), (1), …) for
+	// path probing / connection migration (Conn.AddPath with a second Transport); they appear in Env.ExtraPC
+	ExtraClientEndpoints int
+}
+
+// ExtraClientAddr is the address of the i-th extra client endpoint.
+func ExtraClientAddr(i int) *net.UDPAddr {
+	return &net.UDPAddr{IP: net.ParseIP(fmt.Sprintf("1.0.1.%d", i+1)), Port: 9100 + i}
 }
 
 // Env is a running scenario.
@@ -211,6 +241,7 @@ type Env struct {
 	sim       *simnet.Simnet
 	ClientPC  *simnet.SimConn
 	ServerPC  *simnet.SimConn
+	ExtraPC   []*simnet.SimConn // Setup.ExtraClientEndpoints
 	ServerTr  *quic.Transport
 	Listener  *quic.Listener
 	ClientTr  *quic.Transport
@@ -257,10 +288,14 @@ func Start(s Setup) (*Env, error) {
 		Downlink: simnet.LinkSettings{MTU: mtu}, Uplink: simnet.LinkSettings{MTU: mtu}}
 	cpc := sim.NewEndpoint(ClientAddr, settings)
 	spc := sim.NewEndpoint(ServerAddr, settings)
+	var extra []*simnet.SimConn
+	for i := 0; i < s.ExtraClientEndpoints; i++ {
+		extra = append(extra, sim.NewEndpoint(ExtraClientAddr(i), settings))
+	}
 	if err := sim.Start(); err != nil {
 		return nil, err
 	}
-	e := &Env{Net: nw, sim: sim, ClientPC: cpc, ServerPC: spc, ClientLog: &Recorder{}, ServerLog: &Recorder{}}
+	e := &Env{Net: nw, sim: sim, ClientPC: cpc, ServerPC: spc, ExtraPC: extra, ClientLog: &Recorder{}, ServerLog: &Recorder{}}
 	sconf := s.ServerConf
 	if sconf == nil {
 		sconf = &quic.Config{}
@@ -326,6 +361,9 @@ func (e *Env) Close() {
 	}
 	e.ClientPC.Close()
 	e.ServerPC.Close()
+	for _, pc := range e.ExtraPC {
+		pc.Close()
+	}
 	e.sim.Close()
 }
 
